@@ -73,8 +73,12 @@ def gen_retry(rng, prof):
               "rate": rng.choice([1, 1.5, 2, 3]), "jitter": rng.choice(["NONE", "FULL", "HALF"])}
         if rng.random() < 0.25:
             rs["types"] = rng.sample(USER_ERRS, 2)
+            if rng.random() < 0.2:
+                rs["types"] = []  # an explicit empty filter: nothing is retryable
         elif rng.random() < 0.3:
             rs["errors"] = [rng.choice(["boom", "transient", "nomatch", "rate exceeded (429)", "[denied]", "a.b", "x+"])]
+            if rng.random() < 0.2:
+                rs["errors"] = []
         return rs
     n = rng.randrange(1, 4)
     decs = [{"retry": rng.choice([0, 0, 1, 2, 7])} for _ in range(n)] + [{"no": 1}]
